@@ -240,13 +240,22 @@ def gen_pairs(c):
     """line pairs for the tools: (list, delim, l1, l2, same_selected)"""
     rng = c.rng
     out = []
-    specs = [b"1", b"2", b"3", b"1-2", b"2-3", b"1,3", b"2-", b"-2", b"2,4-", b"1-", b"3,1"]
+    specs = [b"1", b"2", b"3", b"1-2", b"2-3", b"1,3", b"2-", b"-2", b"2,4-", b"1-", b"3,1",
+             b"1,3-", b"3-,1", b"-1,3-", b"1,4-", b"1-2,4-", b"5,1,3", b"1,3,5-"]       # gapped lists that start at field 1 and end open
     fixed = [  # the shapes named in the property
         (b"2", 9, b"a\tb", b"x\tb\t", True), (b"2", 9, b"a\tb", b"x\tb\tc", True), (b"2", 9, b"a\t", b"b\t\tc", True),
         (b"2", 9, b"a\t", b"b\t\t", True), (b"2", 9, b"a\tb", b"a\tb\t\t", True), (b"1", 9, b"k", b"k\t", True), (b"1", 9, b"", b"\tzzz", True),
         (b"2-3", 9, b"a\tb\t", b"x\tb\t\ty", True), (b"2-3", 9, b"a\tb\t", b"a\tb", False), (b"2", 9, b"a\tb", b"a\tb ", False),
         (b"1,3", 9, b"a\tb\tc", b"a\tB\tc\t", True), (b"1,3", 9, b"a\tb\tc", b"a\tb\tC", False), (b"2-", 9, b"a\tb\t", b"a\tb", False),
         (b"1-2", 32, b"ab c d", b"a bc d", False), (b"1-2", 32, b"ab c d", b"ab c", True), (b"1-2", 32, b"ab c ", b"ab c", True),
+        # an empty selected field in different positions is a different selection
+        (b"1,3", 9, b"a\tx\t", b"\ty\ta", False), (b"1,3", 9, b"a\tx\t", b"a\tz\t\tmore", True), (b"3,1", 9, b"\tq\tb", b"b\tq\t", False),
+        (b"5,1,3", 44, b"x,q,,q,y", b",q,x,q,y", False), (b"5,1,3", 44, b"x,q,,q,y", b"x,q,y,q,", False), (b"5,1,3", 44, b"x,q,,q,y", b"x,r,,r,y,tail", True),
+        (b"2,4", 9, b"k\t\tk\tv", b"k\tv\tk\t", False),
+        # gapped lists that start at field 1 and end with an open range: the unselected middle never matters
+        (b"1,3-", 9, b"a\tX\tc\td", b"a\tY\tc\td", True), (b"3-,1", 9, b"a\tX\tc", b"a\t\tc", True), (b"-1,3-", 9, b"a\tX\tc\td", b"a\tY\tc\td", True),
+        (b"1,4-", 9, b"a\tX\tQ\td", b"a\tY\tR\td", True), (b"1,3-", 32, b"a X c d", b"a  c d", True), (b"1,3-", 9, b"a\tX\tc\td", b"a\tX\tc\te", False),
+        (b"1,3,4-", 9, b"a\tX\tc\td", b"a\tZZ\tc\td", True), (b"1-1,4-", 9, b"a\tX\tQ\td\tmore", b"a\tY\tR\td\tmore", True),
     ]
     out += fixed
     for _ in range(60 if c.volume == "quick" else 600):
@@ -335,7 +344,30 @@ def main(argv):
     vsel = [x for i, x in enumerate(rcases) if i % 4 == 0]
     vlines = ["V %d %s %s" % (d, hx(s), hx(l)) for d, s, l in vsel]
     ksel = [x for i, x in enumerate(rcases) if i % 97 == 0]
-    klines = ["K %d %d %s %s" % (seed, d, hx(s), hx(l)) for (d, s, l), seed in zip(ksel, itertools.cycle((1, 47849374332489, 0)))]
+    kseeds = [seed for _, seed in zip(ksel, itertools.cycle((1, 47849374332489, 0)))]
+    # engineered key cases: for lists with several non-adjacent ranges, every combination of selected fields over
+    # {"", "a", "b"} (an EMPTY selected field in every position), unselected fields random, optional extra fields
+    keyfam = []       # (family id, delim, list, line, seed)
+    fam = 0
+    for spec, d in ((b"1,3", 9), (b"3,1", 9), (b"5,1,3", 44), (b"1,3-", 9), (b"-1,3-4,6", 32), (b"2,4", 9), (b"1-2,4", 9)):
+        rs = canonical(cut_parse(spec))
+        dl = bytes([d])
+        idx = sorted(set(i for b, e in rs for i in range(b, min(e, b + 2))))
+        nf = max(idx) + 1
+        for seed in (1, 47849374332489):
+            fam += 1
+            for combo in itertools.product((b"", b"a", b"b"), repeat=len(idx)):
+                for variant in range(2):
+                    fields = [bytes(rng.choice(b"xyz") for _ in range(rng.choice((0, 1, 2)))) for _ in range(nf)]
+                    for i, v in zip(idx, combo):
+                        fields[i] = v
+                    if variant and not any(e == INF for b, e in rs):
+                        fields += [rng.choice((b"", b"q"))]
+                    keyfam.append((fam, d, spec, dl.join(fields), seed))
+    for f_, d, spec, l, seed in keyfam:
+        ksel.append((d, spec, l))
+        kseeds.append(seed)
+    klines = ["K %d %d %s %s" % (seed, d, hx(s), hx(l)) for (d, s, l), seed in zip(ksel, kseeds)]
     lines = plines + rlines + vlines + klines
     for l in lists:
         p = cut_parse(l)
@@ -399,6 +431,46 @@ def main(argv):
                     {"op": "RangeFields", "kind": kind, "line_hex": hexs(l), "list": s.decode(), "delim": d, "impl": o, "expected": want,
                      "how": "echo 'R %d %s %s' | hx_fields" % (d, hx(s), hx(l))})
         base += len(rcases)
+        # keys: the value HashCallback ends with must be the fold of reference MurmurHash64A over the cut pieces
+        # (an empty piece is a piece), and within a family keys are equal exactly when the selected fields are
+        kout = out[base + len(vsel):base + len(vsel) + len(ksel)]
+        for (d, s, l), seed, o in zip(ksel, kseeds, kout):
+            p = cut_parse(s)
+            rs = canonical(p) if p is not None else None
+            if rs is None:
+                want = "ERR"
+            else:
+                h = seed
+                for piece in cut_pieces(l, bytes([d]), rs):
+                    h = murmur64a_py(piece, h)
+                want = str(h)
+            c.count(("K", seed, d, s, l), nontrivial=len(l) > 0, bucket="key/" + ("has-empty-selected-field" if rs and b"" in [x for sel in selected(l, bytes([d]), rs) for x in sel] else "no-empty-selected-field"))
+            if o != want:
+                c.violation("key/value: HashCallback(seed %d) over RangeFields(line %r, -f %s, -d %r) ended with %s; the left fold of MurmurHash64A over the cut pieces %r is %s" % (
+                    seed, l, s.decode(), bytes([d]), o, cut_pieces(l, bytes([d]), rs) if rs else None, want),
+                    {"op": "HashCallback", "kind": "key-value", "seed": seed, "line_hex": hexs(l), "list": s.decode(), "delim": d, "impl": o, "expected": want,
+                     "how": "echo 'K %d %d %s %s' | hx_fields" % (seed, d, hx(s), hx(l))})
+        famkeys = {}
+        for (f_, d, spec, l, seed), o in zip(keyfam, kout[len(ksel) - len(keyfam):]):
+            rs = canonical(cut_parse(spec))
+            sel = tuple(tuple(x) for x in selected(l, bytes([d]), rs))
+            famkeys.setdefault(f_, []).append((sel, o, l, d, spec, seed))
+        for f_, items in famkeys.items():
+            by_key, by_sel = {}, {}
+            for sel, o, l, d, spec, seed in items:
+                if o in by_key and by_key[o][0] != sel:
+                    l0 = by_key[o][1]
+                    c.violation("key/different-selected-same-key: -f %s -d %r: lines %r and %r have different selected fields %r / %r but the same key %s" % (
+                        spec.decode(), bytes([d]), l0, l, by_key[o][0], sel, o),
+                        {"op": "HashCallback", "kind": "key-collision", "seed": seed, "list": spec.decode(), "delim": d, "line1_hex": hexs(l0), "line2_hex": hexs(l), "key": o,
+                         "how": "printf '<line1>\\n<line2>\\n' | dedupe -f %s -d '<delim>'   (must print both lines)" % spec.decode()})
+                    break
+                by_key.setdefault(o, (sel, l))
+                if sel in by_sel and by_sel[sel][0] != o:
+                    c.violation("key/same-selected-different-key: -f %s: lines %r and %r have the same selected fields but keys %s / %s" % (spec.decode(), by_sel[sel][1], l, by_sel[sel][0], o),
+                                {"op": "HashCallback", "kind": "key-split", "seed": seed, "list": spec.decode(), "delim": d, "line1_hex": hexs(by_sel[sel][1]), "line2_hex": hexs(l)})
+                    break
+                by_sel.setdefault(sel, (o, l))
         for (d, s, l), o in zip(vsel, out[base:base + len(vsel)]):
             p = cut_parse(s)
             rs = canonical(p) if p is not None else None
